@@ -8,7 +8,7 @@ def _shape(pid, what):
     return {
         'level': 'exploration',
         'technique': 'bounded-exhaustive enumeration of input shapes on the real library (alone and co-scheduled) against an independent reference model',
-        'level_text': f'Every {what} row x direction x every valid length up to the dense bound (+ stripes at the carry / 16-bit / per-mode limits) x IV forms (incl. counter carry and wrap classes) x tag lengths x AAD lengths x offsets x in/out-of-place x all 7 reachable variants is executed on the real library, alone and with 23 other jobs in flight, and compared with the reference model. The space of shapes is enumerated completely; data bytes come from a seed.',
+        'level_text': f'Every {what} row x direction x every valid length up to the dense bound (+ stripes at the carry / 16-bit / per-mode limits) x IV forms (incl. counter carry and wrap classes) x tag lengths x AAD lengths x offsets x in/out-of-place x all 7 reachable variants is executed on the real library, alone and with 23 other jobs in flight, and compared with the reference model; a third pass runs lane patterns - on a pristine manager image 4 / 8 / 16 jobs (job i in lane i) of one base length (16..256 bytes) except one position p (every p) that is one unit, one block or several blocks shorter or longer. The space of shapes is enumerated completely; data bytes come from a seed.',
         'level_note': 'Trusted: OpenSSL block primitives + the hand-written modes/3GPP references (validated at setup against published vectors). Data values outside the seed-derived alphabet and lengths between the dense sweep and the stripes are outside the bound.',
         'drivers': [{'name': 'shape', 'src': ['props/shape.c'] + ALG, 'cfgs': ['std'], 'args': pid}],
         'deadline': {'quick': 900, 'thorough': 3000},
@@ -112,9 +112,9 @@ PROPS['C10'] = {
 
 PROPS['C13'] = {
     'level': 'exploration',
-    'technique': 'schedule enumeration on the real library with a residue invariant (recognisable secrets, private poisoned stack, post-ret register dump, manager scan) at every quiescent point',
+    'technique': 'schedule enumeration on the real library with a residue invariant (recognisable secrets and a three-run key/message differential; private poisoned stack, post-ret register dump, manager scan) at every quiescent point',
     'level_text': 'For every algorithm row (both directions), 12 chained suites and every key-preparation helper on all 7 variants: schedules of n = 1..17 jobs of unequal lengths followed by flush (covering submit-completes and flush-completes paths and every partial lane occupancy); after every call that leaves the manager empty, the register dump taken immediately after ret, the 256 KiB private stack and the whole manager block are searched for any 8-byte window of the recognisable key objects / plaintext. The same invariant is evaluated after every call of the direct API (GCM / GMAC / GHASH one-shot and init-update-finalize, ChaCha20-Poly1305 direct, ZUC / SNOW3G / KASUMI 1..N-buffer and bit variants, single-block CFB, the QUIC helpers; encrypt and decrypt side, 11 lengths, 16 unequal buffers).',
-    'level_note': 'Detects exact copies of caller-visible secrets (raw keys, every word of every expanded/derived key object the caller passes, plaintext). Internally derived state that is not a byte-copy (e.g. an LFSR loaded from key bytes) is outside this oracle; ciphertext, tags and digests are deliberately not secrets.',
+    'level_note': 'Two oracles. (1) Pattern oracle: exact copies of caller-visible secrets (raw keys, every word of every expanded/derived key object the caller passes, plaintext). (2) Differential oracle for internally derived state that is not a byte-copy (LFSR/FSM rows, keystream, E_K(counter), hash-key powers): the same schedules (four length cycles; quick two) and the same direct-API calls run three times from one pristine manager image with every object at the same address - keys A / messages M, keys B / M, keys A / complement of M; a 32-bit word of manager block, register dump or stack that differs with the key and not with the message is key-derived; 8 or more such bytes at quiescence (for direct calls: not a copy of what the call wrote to its output buffers) is a violation. Ciphertext, tags, digests and anything that also depends on the message are deliberately not secrets. tools/c13diag.sh names the instruction that wrote a reported word (hardware watchpoint).',
     'drivers': [{'name': 'c13', 'src': ['props/c13.c'] + ALG, 'cfgs': ['std'], 'args': ''}],
     'deadline': {'quick': 900, 'thorough': 3000},
     'assumptions': ['library built with SAFE_DATA (asserted through IMB_FEATURE_SAFE_DATA)'],
@@ -157,7 +157,7 @@ PROPS['C12'] = {
 PROPS['C09'] = {
     'level': 'exploration',
     'technique': 'bounded-exhaustive enumeration of (work item x entry point x burst size x position x variant) on the real library against the reference result of the work item',
-    'level_text': 'Part 1 (props/c09.c): per algorithm row, direction and variant, 9 work items of unequal lengths go through the job API (checked / no-check), the asynchronous burst API (checked / no-check, burst sizes 1,2,3,7,8,9,15,16,17,33,127,128) and the synchronous cipher / hash / AEAD burst calls where documented (same sizes, checked / no-check); every job result is compared with the reference. Part 2 (props/c09d.c): the direct functions (GCM/GMAC/GHASH, SHA one-shot and one-block, MD5 one-block, ZUC 1/4/N, SNOW3G 1/2/4/8/N(+multikey)/F9, KASUMI 1/2/3/4/N/F9, 12 CRCs, HEC, ChaCha20-Poly1305 direct, QUIC helpers, single-block CFB) with n below/at/above the lane count, unequal per-buffer lengths in non-sorted order, distinct IVs/keys, buffers end-flush against guard pages, and NULL / over-limit arguments.',
+    'level_text': 'Part 1 (props/c09.c): per algorithm row, direction and variant, 9 work items of unequal lengths go through the job API (checked / no-check), the asynchronous burst API (checked / no-check, burst sizes 1,2,3,7,8,9,15,16,17,33,127,128) and the synchronous cipher / hash / AEAD burst calls where documented (same sizes, checked / no-check); every job result is compared with the reference. Part 2 (props/c09d.c): the direct functions (GCM/GMAC/GHASH, SHA one-shot and one-block, MD5 one-block, ZUC 1/4/N, SNOW3G 1/2/4/8/N(+multikey)/F9, KASUMI 1/2/3/4/N/F9, 12 CRCs, HEC, ChaCha20-Poly1305 direct, QUIC helpers, single-block CFB) with n below/at/above the lane count, unequal per-buffer lengths in non-sorted order and lane-pattern profiles (all buffers of one base length except buffer p, every p), distinct IVs/keys, buffers end-flush against guard pages, and NULL / over-limit arguments.',
     'level_note': 'Entry points the header does not document for an algorithm are not exercised; AEAD suites only in their documented chain order.',
     'drivers': [{'name': 'c09', 'src': ['props/c09.c'] + ALG, 'cfgs': ['std'], 'args': ''},
                 {'name': 'c09d', 'src': ['props/c09d.c'] + ALG, 'cfgs': ['std'], 'args': 'C09'}],
